@@ -286,7 +286,7 @@ def shard_main(ctx):
         ctx.samples.append(dict(exhaustive_slice_size=len(probes), example=[list(x) for x in probes[5:9]]))
 
         # (2) generated long / dotted paths
-        n = {"quick": 60, "thorough": 3000}[ctx.tier]
+        n = {"quick": 300, "thorough": 3000}[ctx.tier]
 
         @given(st.lists(probes_gen, min_size=20, max_size=60))
         def test(batch):
